@@ -15,6 +15,20 @@ use rayon::prelude::*;
 use serde_json::json;
 use std::convert::Infallible;
 
+/// both trees from float weights; a list of non-negative, non-NaN weights must be accepted
+fn trees64(w: &[f64]) -> Result<(EncoderHuffmanTree, DecoderHuffmanTree), (String, String)> {
+    match (EncoderHuffmanTree::from_float_probabilities::<f64, _>(w), DecoderHuffmanTree::from_float_probabilities::<f64, _>(w)) {
+        (Ok(e), Ok(d)) => Ok((e, d)),
+        (e, d) => Err(("Huffman | non-negative, non-NaN float weights rejected".to_string(), format!("weights {:?} (f64): encoder tree {}, decoder tree {}", w, if e.is_ok() { "built" } else { "refused" }, if d.is_ok() { "built" } else { "refused" }))),
+    }
+}
+fn trees32(w: &[f32]) -> Result<(EncoderHuffmanTree, DecoderHuffmanTree), (String, String)> {
+    match (EncoderHuffmanTree::from_float_probabilities::<f32, _>(w), DecoderHuffmanTree::from_float_probabilities::<f32, _>(w)) {
+        (Ok(e), Ok(d)) => Ok((e, d)),
+        (e, d) => Err(("Huffman | non-negative, non-NaN float weights rejected".to_string(), format!("weights {:?} (f32): encoder tree {}, decoder tree {}", w, if e.is_ok() { "built" } else { "refused" }, if d.is_ok() { "built" } else { "refused" }))),
+    }
+}
+
 fn cw_prefix(t: &EncoderHuffmanTree, s: usize) -> Option<Vec<bool>> {
     let mut v = vec![];
     t.encode_symbol_prefix(s, |b| { v.push(b); Ok::<(), Infallible>(()) }).ok()?;
@@ -200,13 +214,15 @@ fn sweep(report: &Report, letters: &[u64], max_len: usize, label: &str) {
             let lens: Vec<usize> = rc.iter().map(|c| c.len()).collect();
             // floats (same values scaled by a non-representable factor, so sums round)
             let wf64: Vec<f64> = w.iter().map(|&x| x as f64 * 0.1).collect();
-            let enc = EncoderHuffmanTree::from_float_probabilities::<f64, _>(&wf64).unwrap();
-            let dec = DecoderHuffmanTree::from_float_probabilities::<f64, _>(&wf64).unwrap();
-            bad.extend(check_trees(&format!("{:?} (f64)", wf64), len, &enc, &dec, &reference_codewords(&wf64), None));
+            match trees64(&wf64) {
+                Ok((enc, dec)) => bad.extend(check_trees(&format!("{:?} (f64)", wf64), len, &enc, &dec, &reference_codewords(&wf64), None)),
+                Err(e) => bad.push(e),
+            }
             let wf32: Vec<f32> = w.iter().map(|&x| x as f32 * 0.1).collect();
-            let enc = EncoderHuffmanTree::from_float_probabilities::<f32, _>(&wf32).unwrap();
-            let dec = DecoderHuffmanTree::from_float_probabilities::<f32, _>(&wf32).unwrap();
-            bad.extend(check_trees(&format!("{:?} (f32)", wf32), len, &enc, &dec, &reference_codewords(&wf32), None));
+            match trees32(&wf32) {
+                Ok((enc, dec)) => bad.extend(check_trees(&format!("{:?} (f32)", wf32), len, &enc, &dec, &reference_codewords(&wf32), None)),
+                Err(e) => bad.push(e),
+            }
             (bad, lens)
         }).collect();
         total += n as u64;
@@ -239,8 +255,7 @@ fn specials(report: &Report) {
     // tiny / zero / equal / huge floats
     for v in [vec![0.0f64; 5], vec![5e-324; 4], vec![1e-300, 1e300, 1e-300], vec![0.25; 8], vec![1e308, 1e308, 1e308], vec![0.0, 0.0, 1.0], vec![f64::INFINITY, 1.0, 2.0]] {
         n += 1;
-        let enc = EncoderHuffmanTree::from_float_probabilities::<f64, _>(&v).unwrap();
-        let dec = DecoderHuffmanTree::from_float_probabilities::<f64, _>(&v).unwrap();
+        let (enc, dec) = match trees64(&v) { Ok(t) => t, Err((i, d)) => { report.violation(Violation { identity: i, detail: d, case: json!({"kind": "none"}) }); continue; } };
         for (i, d) in check_trees(&format!("{:?}", v), v.len(), &enc, &dec, &reference_codewords(&v), None) {
             report.violation(Violation { identity: i, detail: d, case: json!({"kind": "none"}) });
         }
@@ -284,8 +299,7 @@ fn specials(report: &Report) {
             n += 1;
             let mut w: Vec<f64> = (0..len).map(|i| (2.0f64).powi(i as i32 - 60)).collect();
             if rev { w.reverse(); }
-            let enc = EncoderHuffmanTree::from_float_probabilities::<f64, _>(&w).unwrap();
-            let dec = DecoderHuffmanTree::from_float_probabilities::<f64, _>(&w).unwrap();
+            let (enc, dec) = match trees64(&w) { Ok(t) => t, Err((i, d)) => { report.violation(Violation { identity: i, detail: d, case: json!({"kind": "none"}) }); continue; } };
             longest = longest.max((0..w.len()).filter_map(|s| cw_suffix(&enc, s)).map(|c| c.len()).max().unwrap_or(0));
             for (i, d) in check_trees(&format!("{len} f64 weights 2^(i-60){}", if rev { " reversed" } else { "" }), w.len(), &enc, &dec, &reference_codewords(&w), None) {
                 report.violation(Violation { identity: i, detail: d, case: json!({"kind": "none"}) });
@@ -293,7 +307,7 @@ fn specials(report: &Report) {
         }
     }
     report.count("longest_codeword_bits", longest as u64);
-    if longest < 190 { panic!("HARNESS: the deep-tree vectors must reach codewords of >= 190 bits, got {longest}"); }
+    if longest < 190 && report.violation_count() == 0 { panic!("HARNESS: the deep-tree vectors must reach codewords of >= 190 bits, got {longest}"); }
     report.count("special_weight_vectors", n);
     report.add_traces(n);
 }
